@@ -373,6 +373,14 @@ impl<'grammar> TypeInferencer<'grammar> {
         }
     }
 
+    /// Span of the nonterminal whose type is being computed (for errors in `#X#` types).
+    fn current_span(&self) -> Span {
+        match self.stack.last() {
+            Some(nt) => self.nonterminals[nt].span,
+            None => Span(0, 0),
+        }
+    }
+
     fn symbol_type(&mut self, symbol: &SymbolKind) -> NormResult<TypeRepr> {
         match *symbol {
             SymbolKind::Terminal(ref id) => Ok(self.types.terminal_type(id).clone()),
@@ -381,16 +389,14 @@ impl<'grammar> TypeInferencer<'grammar> {
             SymbolKind::Name(_, ref s) | SymbolKind::Tuple(_, ref s) => self.symbol_type(&s.kind),
             SymbolKind::Error => Ok(self.types.error_recovery_type().clone()),
 
-            // A `#X#` type written by the user is not seen by name resolution.
+            // A `#X#` type written by the user is seen neither by name resolution nor by
+            // macro expansion.
             SymbolKind::AmbiguousId(ref id) => {
                 let nt_id = NonterminalString(id.clone());
                 if self.nonterminals.contains_key(&nt_id) {
                     self.nonterminal_type(&nt_id)
                 } else {
-                    let span = match self.stack.last() {
-                        Some(nt) => self.nonterminals[nt].span,
-                        None => Span(0, 0),
-                    };
+                    let span = self.current_span();
                     return_err!(span, "unresolved symbol `{}` in type annotation", id)
                 }
             }
@@ -400,7 +406,12 @@ impl<'grammar> TypeInferencer<'grammar> {
             | SymbolKind::Macro(..)
             | SymbolKind::Lookahead
             | SymbolKind::Lookbehind => {
-                unreachable!("symbol `{:?}` should have been expanded away", symbol)
+                let span = self.current_span();
+                return_err!(
+                    span,
+                    "cannot use the type of `{}` in a type annotation",
+                    symbol
+                )
             }
         }
     }
